@@ -770,7 +770,7 @@ pub mod locktap {
     use std::sync::Mutex;
     use std::sync::atomic::{AtomicU64, Ordering};
 
-    /// object 0 is the pager lock, object p + 1 the latch of page p
+    /// object 0 is the pager lock, every other number one page-latch instance (one frame's lock)
     #[derive(Debug, Clone, Copy)]
     pub struct Event {
         pub thread: u64,
@@ -813,9 +813,11 @@ pub mod locktap {
         exclusive: bool,
     }
 
-    // Page latches are identified by the address of their lock; every frame is named (address -> page id)
-    // when it enters the cache, which happens before it can be latched.
-    static NAMES: Mutex<Option<std::collections::HashMap<usize, u64>>> = Mutex::new(None);
+    // A page latch is a lock *instance*: the RwLock inside one frame. A page that is freed and allocated again, or
+    // evicted and loaded again, gets a new frame and therefore a new lock. Every frame is registered when it enters
+    // the cache (before it can be latched) and gets the next instance number; latches find it through the address of
+    // their lock, which cannot be reused while a latch or the cache still holds the frame.
+    static NAMES: Mutex<Option<(u64, std::collections::HashMap<usize, u64>)>> = Mutex::new(None);
 
     pub(crate) fn name_frame(frame: &crate::multithreading::frames::MemFrame) {
         use crate::multithreading::frames::MemFrame;
@@ -824,8 +826,10 @@ pub mod locktap {
             MemFrame::Overflow(f) => std::sync::Arc::as_ptr(&f.inner) as *const () as usize,
             MemFrame::Zero(f) => std::sync::Arc::as_ptr(&f.inner) as *const () as usize,
         };
-        let page = u64::from(frame.page_number());
-        NAMES.lock().unwrap_or_else(|e| e.into_inner()).get_or_insert_with(Default::default).insert(addr, page);
+        let mut g = NAMES.lock().unwrap_or_else(|e| e.into_inner());
+        let (next, map) = g.get_or_insert_with(|| (1, Default::default()));
+        map.insert(addr, *next);
+        *next += 1;
     }
 
     fn page_of(addr: usize) -> u64 {
@@ -833,8 +837,7 @@ pub mod locktap {
             .lock()
             .unwrap_or_else(|e| e.into_inner())
             .as_ref()
-            .and_then(|m| m.get(&addr).copied())
-            .map(|p| p + 1)
+            .and_then(|(_, m)| m.get(&addr).copied())
             .unwrap_or(1_000_000_000 + addr as u64) // a frame that never went through the cache
     }
 
